@@ -90,6 +90,43 @@ func staticInvalid(f *btpb.RowFilter) bool {
 	return e.required || e.permitted
 }
 
+// staticRequired reports whether the tree contains a node that is invalid for certain (one of
+// the arguments the statement lists: negative counts, false pass/block flags, fewer than two
+// sub-filters, sample probability outside (0,1), bad regex, sub-millisecond timestamp bounds).
+// Such a filter must be refused whatever the table holds - "rejected, never ignored".
+func staticRequired(f *btpb.RowFilter) bool {
+	if f == nil {
+		return false
+	}
+	switch x := f.Filter.(type) {
+	case *btpb.RowFilter_Chain_:
+		if len(x.Chain.Filters) < 2 {
+			return true
+		}
+		for _, s := range x.Chain.Filters {
+			if staticRequired(s) {
+				return true
+			}
+		}
+		return false
+	case *btpb.RowFilter_Interleave_:
+		if len(x.Interleave.Filters) < 2 {
+			return true
+		}
+		for _, s := range x.Interleave.Filters {
+			if staticRequired(s) {
+				return true
+			}
+		}
+		return false
+	case *btpb.RowFilter_Condition_:
+		return staticRequired(x.Condition.PredicateFilter) || staticRequired(x.Condition.TrueFilter) || staticRequired(x.Condition.FalseFilter)
+	}
+	e := &fEval{}
+	e.eval(f, "k", []OCell{{Fam: "f", Qual: "q", Ts: 1000, Val: "v"}})
+	return e.required
+}
+
 func (e *fEval) invalid(format string, a ...interface{}) []OCell {
 	if !e.required {
 		e.required = true
